@@ -71,6 +71,9 @@ def setIdx (b : Bytes) (i : Int) (v : Byte) : X Bytes :=
 /-- `make([]byte, n)` / `make([]byte, n, c)` -/
 def make (n : Int) : X Bytes := if 0 ≤ n then .ok (List.replicate n.toNat 0) else .panic
 
+/-- `make([]byte, n, c)`: a length larger than the capacity (or a negative one) panics -/
+def makeCap (n c : Int) : X Bytes := if 0 ≤ n ∧ n ≤ c then .ok (List.replicate n.toNat 0) else .panic
+
 /-- `binary.BigEndian.Uint16(b)` -/
 def u16 (b : Bytes) : X UInt16 :=
   match b with
